@@ -131,6 +131,9 @@ var affines = [][6]float64{
 	// coordinate differences leave the float64 range, quotients do not
 	{math.Ldexp(1, 665), 0, 0, math.Ldexp(1, 665), 0, 0},
 	{math.Ldexp(1, -665), 0, 0, math.Ldexp(1, -665), 0, 0},
+	// small and far away (exact): rings of 3e-3 around (2^22, 3*2^21), nine
+	// orders of magnitude below their coordinates
+	{math.Ldexp(1, -10), 0, 0, math.Ldexp(1, -10), 4194304, 6291456},
 }
 
 func build(c Case, scale float64) (geom.Polygonal, geom.Point) {
@@ -216,7 +219,7 @@ func main() {
 		return
 	}
 	r := report.New("C02", tier, "model_checking")
-	r.Rule = "E1: (a) every ring of 3 and 4 (thorough: 5) vertices over {0..3}^2 (thorough 5-rings over {0..2}^2), repeated vertices and self-intersections included, closed and unclosed spelling, x all 81 points of the half-integer grid over [-0.5,3.5]^2; (a') the same over the lattice {0,1e10,2e10} x {0,5,10} (aspect ratio 1e9, exact integers); (b) every two-ring Polygon and two-member MultiPolygon over the 504 triangles of {0..2}^2 x 49 half-integer points; (b') the same family on one polygon value per worker, rings cut from one flat buffer and edited in place between cases (answers depend on current coordinates only; caller's buffer not written); (b'') rings of 64..200 vertices (convex, with a hole, star-shaped) x 1849 lattice points; (c) every box over {0..3}^2 as *Bounds; (d) the 3-/4-vertex rings through 6 affine maps with non-representable coefficients and 2 exact scalings by 2^665 and 2^-665 at points with an exactly verified margin; (e) MultiPoint/LineString/MultiLineString/Polygon receivers with all vertex lists of length <= 2 (3 on a sub-grid) against 8 target shapes (two of them away from the origin). Oracle: integer on-segment test and half-open crossing parity. Non-trivial = queries whose reference answer is OnEdge or whose ray passes through a vertex."
+	r.Rule = "E1: (a) every ring of 3 and 4 (thorough: 5) vertices over {0..3}^2 (thorough 5-rings over {0..2}^2), repeated vertices and self-intersections included, closed and unclosed spelling, x all 81 points of the half-integer grid over [-0.5,3.5]^2; (a') the same over the lattice {0,1e10,2e10} x {0,5,10} (aspect ratio 1e9, exact integers); (b) every two-ring Polygon and two-member MultiPolygon over the 504 triangles of {0..2}^2 x 49 half-integer points; (b') the same family on one polygon value per worker, rings cut from one flat buffer and edited in place between cases (answers depend on current coordinates only; caller's buffer not written); (b'') rings of 64..200 vertices (convex, with a hole, star-shaped) x 1849 lattice points; (c) every box over {0..3}^2 as *Bounds; (d) the 3-/4-vertex rings through 6 affine maps with non-representable coefficients 2 exact scalings by 2^665 and 2^-665 and one exact small-and-far map (2^-10, moved to (2^22, 3*2^21)) at points with an exactly verified margin; (e) MultiPoint/LineString/MultiLineString/Polygon receivers with all vertex lists of length <= 2 (3 on a sub-grid) against 8 target shapes (two of them away from the origin). Oracle: integer on-segment test and half-open crossing parity. Non-trivial = queries whose reference answer is OnEdge or whose ray passes through a vertex."
 	var n, nontrivial, skipped int64
 	viol := func(fam string, c Case, scale int64, sym, det string) {
 		r.Violation(fmt.Sprintf("%s|%s|%s", fam, c.AsType, sym), map[string]interface{}{"case": c, "scale": scale, "observed": det})
